@@ -214,8 +214,12 @@ Proof. vm_compute. repeat split; reflexivity. Qed.
              wsum_xw = sum(w x)); Weight = n exactly (weighted: within tol_sum ws of Qsum ws); Bounds = exactly
              (least, greatest) element (is_min, is_max) of xs — weighted: of the values carrying a non-zero weight
              ([used]) — provided the Sorted flag is only set on ascending data; NaN for the empty sample; weighted
-             Variance / StdDev panic; nothing was modified.  GeoMean (slice function): NaN exactly for the empty sample or
-             a value <= 0, else positive with |g^n - prod xs| <= geo_rel n * prod xs when n <= 64 (geo_ok).
+             Variance / StdDev panic; nothing was modified.  GeoMean: NaN exactly for the empty sample or a value <= 0,
+             else positive with |g^n - prod xs| <= geo_rel n * prod xs when n <= 64, and ONLY bracketed between the least
+             and the greatest value (relative 1e-9) when n > 64 (geo_ok); weighted (sgeo_ok): g^D within geo_rel_D of
+             prod x_i^e_i with e_i / D = w_i / W when the lcm D of the reduced denominators of the w_i / W is <= 64, else
+             only bracketed between the least and greatest value carrying weight; not compared when a value <= 0
+             carries weight or the total weight is 0.
      kind 1  hist_ok: every dump equals the model store, every queried sample is a legal Sample (swf) and the query
              satisfies query_obs_ok (same predicates as above) for it — stated relative to the model store h_step
              (see meta: partial).
